@@ -22,8 +22,12 @@ static PANICS: Mutex<Vec<Option<String>>> = Mutex::new(Vec::new());
 static HANGS: std::sync::atomic::AtomicUsize = std::sync::atomic::AtomicUsize::new(0);
 
 pub fn install_panic_hook() {
-    std::panic::set_hook(Box::new(|_| {
+    std::panic::set_hook(Box::new(|info| {
         let who = hooks::current_request();
+        // development aid: VERIF_PANIC_TRACE=1 prints every panic with the request it belongs to
+        if std::env::var("VERIF_PANIC_TRACE").is_ok() {
+            eprintln!("PANIC {:?}: {}", who, info);
+        }
         if let Ok(mut p) = PANICS.lock() {
             p.push(who);
         }
